@@ -126,14 +126,18 @@ TOp ==
      \/ Op("a.move") /\ Step("move") /\ Head(todo)[2] = "a" /\ Move
      \/ Op("c.move") /\ Step("move") /\ Head(todo)[2] = "c" /\ Move
 
+IsOvl(e) == "ovl" \in DOMAIN e /\ e.ovl
+BodyOf(e) == IF e.body = "empty" THEN "empty" ELSE "data"
 \* steps of the model that perform no file-system operation
 TSilent ==
   /\ Silent
   /\ \/ NewFile
      \/ (par.maxsize = 0 /\ Flush)
      \/ (~Batch[tid].mid /\ runs >= 1 /\ runs <= Len(Scn) /\ exch < Len(Scn[runs].ex)
-         /\ Session(Scn[runs].ex[exch + 1].k, Scn[runs].ex[exch + 1].shape,
-                    IF Scn[runs].ex[exch + 1].body = "empty" THEN "empty" ELSE "data"))
+         /\ LET a == Scn[runs].ex[exch + 1] IN
+            IF IsOvl(a) /\ exch + 1 < Len(Scn[runs].ex)
+            THEN LET b == Scn[runs].ex[exch + 2] IN SessionOvl(a.shape, BodyOf(a), b.k, b.shape, BodyOf(b))
+            ELSE Session(a.k, a.shape, BodyOf(a)))
      \/ (~Batch[tid].mid /\ runs >= 1 /\ runs <= Len(Scn) /\ exch = Len(Scn[runs].ex) /\ Close)
 
 TNext == TBoot \/ TStart \/ TAbegin \/ TAend \/ TSend \/ TEnd \/ TOp \/ TSilent
